@@ -178,9 +178,16 @@ def finish(ctx, level, explanation, checker_cmd, t0, seed=0):
     for o in failed:
         hit = None
         for k in open_known:
-            if k["rule"] == o.rule and (k["construct"] == o.construct or
-                                        nofunc(k["construct"]) == nofunc(o.construct)):
+            # the entry naming exactly this construct, else one that differs only
+            # in the (renamed) function it sits in
+            if k["rule"] == o.rule and k["construct"] == o.construct:
                 hit = k
+                break
+        if hit is None:
+            for k in open_known:
+                if k["rule"] == o.rule and nofunc(k["construct"]) == nofunc(o.construct):
+                    hit = k
+                    break
         if hit:
             matched.append((o, hit))
         else:
